@@ -344,3 +344,21 @@ func (r *Report) Finish(findingsDir, verifDir string, seed int64) int {
 	}
 	return exit
 }
+
+// shareRule runs another property's rules into a scratch report and copies the obligations of rule `from` that the
+// filter accepts into r under the name `to` (a clause that two properties have in common is decided once, by the same
+// code, and reported under both).
+func shareRule(w *World, r *Report, check func(*World, *Report), from, to string, filter func(Obligation) bool) int {
+	sub := NewReport("shared", r.Tier, w)
+	check(w, sub)
+	n := 0
+	for _, o := range sub.Obls {
+		if o.Rule != from || (filter != nil && !filter(o)) {
+			continue
+		}
+		o.Rule = to
+		r.add(o)
+		n++
+	}
+	return n
+}
